@@ -258,7 +258,7 @@ Section Generic.
   (* ---- pending list helpers ---- *)
   Lemma nth_kill_same l i e : nth_error l i = Some e ->
     nth_error (kill l i) i = Some {| e_t := e_t e; e_src := e_src e; e_st := e_st e; e_msg := e_msg e; e_v3 := e_v3 e;
-                                     e_flag := e_flag e; e_live := false |}.
+                                     e_flag := e_flag e; e_live := false; e_badtid := e_badtid e |}.
   Proof.
     revert i. induction l as [|a l IH]; intros [|i] H; cbn in *; try discriminate.
     - injection H as ->. reflexivity.
@@ -361,7 +361,7 @@ Section Generic.
   Qed.
 
   Lemma step_ok_of s o t s' r ann :
-    op_thread s o = Some t -> step p s o = (s', (r, ann)) ->
+    op_thread p s o = Some t -> step p s o = (s', (r, ann)) ->
     is_path p (cur p s t :: ann) = true -> In (cur p s' t) (cur p s t :: ann) ->
     (terminal p (cur p s t) = false \/ ann = []) -> step_ok p s o = true.
   Proof.
@@ -379,43 +379,73 @@ Section Generic.
     - rewrite nth_kill_other in Hj by exact Hij. apply Hij. symmetry. eapply I2; eassumption.
   Qed.
 
+  (* a message handled for thread t *)
+  Lemma msg_inv s outbound m v3 flag t bt f tape s' r ann fat :
+    inv s -> msg_step p s outbound m v3 flag t bt f tape = (s', (r, ann), fat) ->
+    negb (has_live s t) || is_reject r = true ->
+    inv s' /\ is_path p (cur p s t :: ann) = true /\ In (cur p s' t) (cur p s t :: ann) /\
+    (terminal p (cur p s t) = false \/ ann = []).
+  Proof.
+    intros Hinv ES' Hd. unfold msg_step in ES'.
+    assert (Hquiet : (s', (r, ann), fat) = (s, (RReject, []), false) ->
+              inv s' /\ is_path p (cur p s t :: ann) = true /\ In (cur p s' t) (cur p s t :: ann) /\
+              (terminal p (cur p s t) = false \/ ann = [])).
+    { intros Hq. injection Hq as -> -> -> ->. split; [exact Hinv|]. split; [reflexivity|].
+      split; [left; reflexivity|right; reflexivity]. }
+    destruct (f_get f); [apply Hquiet; symmetry; exact ES'|].
+    destruct (target p m v3 outbound) as [x|]; [|apply Hquiet; symmetry; exact ES'].
+    destruct (can p (cur p s t) x) eqn:Hc; cbn [negb] in ES'; [|apply Hquiet; symmetry; exact ES'].
+    assert (Hnt : terminal p (cur p s t) = false) by (eapply can_nonterminal; exact Hc).
+    destruct (negb outbound && is_action p m v3).
+    + destruct (f_tp f); [apply Hquiet; symmetry; exact ES'|].
+      injection ES' as <- <- <- <-.
+      cbn [is_reject] in Hd. rewrite orb_false_r in Hd. apply negb_true_iff in Hd.
+      split.
+      * eapply (inv_extend s _ t Hinv (has_live_false s t Hd)); [intros t' _; apply cur_add_ev|].
+        right. eexists. split; [reflexivity|]. cbn [e_t e_src e_st]. rewrite cur_add_ev. repeat split. exact Hc.
+      * split; [reflexivity|]. split; [left; reflexivity|left; exact Hnt].
+    + match type of ES' with context [process p s t ?kk m x false false tape] => set (k := kk) in * end.
+      destruct (process p s t k m x false false tape) as [[[s1 ann1] ok] fat1] eqn:EP.
+      assert (Hfat : fat1 = false) by (pose proof (process_noab_fat s t k m x false tape) as X; rewrite EP in X; exact X).
+      destruct (process_ok s t k m x false false tape s1 ann1 ok fat1 EP (fun _ => can_sedge _ _ Hc) Hnt Hfat)
+        as [P [M [O NE]]].
+      injection ES' as <- Hr <- _.
+      assert (Hnl : has_live s t = false).
+      { destruct (has_live s t); [|reflexivity]. cbn [negb orb] in Hd. rewrite <- Hr in Hd.
+        destruct (ok || p_async p); [destruct (Nat.ltb _ _)|]; cbn in Hd; discriminate. }
+      split; [eapply (inv_extend s s1 t Hinv (has_live_false s t Hnl) O NE)|].
+      split; [exact P|]. split; [exact M|left; exact Hnt].
+  Qed.
+
   Lemma step_inv s o : inv s -> disciplined_step p s o = true ->
     inv (fst (step p s o)) /\ step_ok p s o = true.
   Proof.
     intros Hinv Hd. pose proof Hinv as [I0 [I1 I2]].
-    destruct o as [outbound m v3 flag t f tape|i opt f tape|i f tape|i tape].
+    destruct o as [outbound m v3 flag t f tape|outbound m v3 flag wi wth wpth fresh f tape|i opt f tape|i f tape|i tape].
     - (* a message *)
       unfold disciplined_step in Hd.
       destruct (step p s (Msg outbound m v3 flag t f tape)) as [s' [r ann]] eqn:ES. cbn [fst snd] in *.
       pose proof ES as ES'. unfold step, step_full in ES'.
-      assert (Hquiet : (s', (r, ann)) = (s, (RReject, [])) ->
-                inv s' /\ step_ok p s (Msg outbound m v3 flag t f tape) = true).
-      { intros Hq. injection Hq as -> -> ->. split; [exact Hinv|].
-        eapply step_ok_of; [reflexivity|exact ES|reflexivity|left; reflexivity|right; reflexivity]. }
-      destruct (f_get f); [apply Hquiet; symmetry; exact ES'|].
-      destruct (target p m v3 outbound) as [x|]; [|apply Hquiet; symmetry; exact ES'].
-      destruct (can p (cur p s t) x) eqn:Hc; cbn [negb] in ES'; [|apply Hquiet; symmetry; exact ES'].
-      assert (Hnt : terminal p (cur p s t) = false) by (eapply can_nonterminal; exact Hc).
-      destruct (negb outbound && is_action p m v3).
-      + destruct (f_tp f); [apply Hquiet; symmetry; exact ES'|].
-        cbn [fst] in ES'. injection ES' as <- <- <-.
-        cbn [is_reject] in Hd. rewrite orb_false_r in Hd. apply negb_true_iff in Hd.
-        split.
-        * eapply (inv_extend s _ t Hinv (has_live_false s t Hd)); [intros t' _; apply cur_add_ev|].
-          right. eexists. split; [reflexivity|]. cbn [e_t e_src e_st]. rewrite cur_add_ev. repeat split. exact Hc.
-        * eapply step_ok_of; [reflexivity|exact ES|reflexivity|left; reflexivity|left; exact Hnt].
-      + set (k := {| c_v3 := v3; c_inbound := negb outbound; c_opt := 0; c_flag := flag; c_f := f |}) in *.
-        destruct (process p s t k m x false false tape) as [[[s1 ann1] ok] fat] eqn:EP.
-        assert (Hfat : fat = false) by (pose proof (process_noab_fat s t k m x false tape) as X; rewrite EP in X; exact X).
-        destruct (process_ok s t k m x false false tape s1 ann1 ok fat EP (fun _ => can_sedge _ _ Hc) Hnt Hfat)
-          as [P [M [O NE]]].
-        cbn [fst] in ES'. injection ES' as <- Hr <-.
-        assert (Hnl : has_live s t = false).
-        { destruct (has_live s t); [|reflexivity]. cbn [negb orb] in Hd. rewrite <- Hr in Hd.
-          destruct (ok || p_async p); [destruct (Nat.ltb _ _)|]; cbn in Hd; discriminate. }
-        split.
-        * eapply (inv_extend s s1 t Hinv (has_live_false s t Hnl) O NE).
-        * eapply step_ok_of; [reflexivity|exact ES|exact P|exact M|left; exact Hnt].
+      destruct (msg_step p s outbound m v3 flag t false f tape) as [[s1 [r1 ann1]] fat] eqn:EM.
+      cbn [fst] in ES'. injection ES' as <- <- <-.
+      destruct (msg_inv _ _ _ _ _ _ _ _ _ _ _ _ _ Hinv EM Hd) as [Hi [P [M T]]].
+      split; [exact Hi|]. eapply step_ok_of; [reflexivity|exact ES|exact P|exact M|exact T].
+    - (* a wire message *)
+      unfold disciplined_step in Hd.
+      destruct (step p s (Wire outbound m v3 flag wi wth wpth fresh f tape)) as [s' [r ann]] eqn:ES. cbn [fst snd] in *.
+      pose proof ES as ES'. unfold step, step_full in ES'.
+      destruct (wire_thread p m v3 outbound wi wth wpth fresh) as [t|] eqn:EW.
+      2:{ cbn [fst] in ES'. injection ES' as <- <- <-. split; [exact Hinv|].
+          unfold step_ok. cbn [op_thread]. rewrite EW. reflexivity. }
+      destruct (_ && N.eqb (p_tid_check p) 2).
+      { cbn [fst] in ES'. injection ES' as <- <- <-. split; [exact Hinv|].
+        eapply step_ok_of; [cbn [op_thread]; exact EW|exact ES|reflexivity|left; reflexivity|right; reflexivity]. }
+      destruct (msg_step p s outbound m v3 flag t _ _ tape) as [[s1 [r1 ann1]] fat] eqn:EM.
+      cbn [fst] in ES'. injection ES' as <- Hr <-.
+      assert (Hd' : negb (has_live s t) || is_reject r1 = true).
+      { rewrite <- Hr in Hd. unfold relabel in Hd. destruct (_ && _) in Hd; [destruct r1|]; exact Hd. }
+      destruct (msg_inv _ _ _ _ _ _ _ _ _ _ _ _ _ Hinv EM Hd') as [Hi [P [M T]]].
+      split; [exact Hi|]. eapply step_ok_of; [cbn [op_thread]; exact EW|exact ES|exact P|exact M|exact T].
     - (* Continue *)
       unfold disciplined_step in Hd. apply negb_true_iff in Hd.
       destruct (step p s (Continue i opt f tape)) as [s' [r ann]] eqn:ES. cbn [fst].
@@ -522,18 +552,31 @@ Section Generic.
       + apply commit_other. exact Ht.
   Qed.
 
+  Lemma msg_step_other s outbound m v3 flag t bt f tape t' :
+    t' <> t -> cur p (fst (fst (msg_step p s outbound m v3 flag t bt f tape))) t' = cur p s t'.
+  Proof.
+    intros H. unfold msg_step. destruct (f_get f); [reflexivity|].
+    destruct (target p m v3 outbound) as [x|]; [|reflexivity].
+    destruct (negb (can p (cur p s t) x)); [reflexivity|].
+    destruct (negb outbound && is_action p m v3); [destruct (f_tp f); reflexivity|].
+    match goal with |- context [process p s t ?k m x false false tape] =>
+      pose proof (process_other s t k m x false false tape t' H) as L;
+      destruct (process p s t k m x false false tape) as [[[s1 ann] ok] fat] end.
+    cbn [fst] in *. exact L.
+  Qed.
+
   Lemma step_other s o t' :
-    (forall t, op_thread s o = Some t -> t' <> t) -> cur p (fst (step p s o)) t' = cur p s t'.
+    (forall t, op_thread p s o = Some t -> t' <> t) -> cur p (fst (step p s o)) t' = cur p s t'.
   Proof.
     intros H. unfold step, step_full.
-    destruct o as [outbound m v3 flag t f tape|i opt f tape|i f tape|i tape]; cbn [op_thread] in *.
-    - specialize (H t eq_refl). destruct (f_get f); [reflexivity|].
-      destruct (target p m v3 outbound) as [x|]; [|reflexivity].
-      destruct (negb (can p (cur p s t) x)); [reflexivity|].
-      destruct (negb outbound && is_action p m v3); [destruct (f_tp f); reflexivity|].
-      match goal with |- context [process p s t ?k m x false false tape] =>
-        pose proof (process_other s t k m x false false tape t' H) as L;
-        destruct (process p s t k m x false false tape) as [[[s1 ann] ok] fat] end.
+    destruct o as [outbound m v3 flag t f tape|outbound m v3 flag wi wth wpth fresh f tape|i opt f tape|i f tape|i tape];
+      cbn [op_thread] in *.
+    - apply msg_step_other. apply H. reflexivity.
+    - destruct (wire_thread p m v3 outbound wi wth wpth fresh) as [t|]; [|reflexivity].
+      destruct (_ && N.eqb (p_tid_check p) 2); [reflexivity|].
+      match goal with |- context [msg_step p s outbound m v3 flag t ?b ?ff tape] =>
+        pose proof (msg_step_other s outbound m v3 flag t b ff tape t' (H t eq_refl)) as L;
+        destruct (msg_step p s outbound m v3 flag t b ff tape) as [[s1 [r1 ann1]] fat] end.
       cbn [fst] in *. exact L.
     - destruct (nth_error (pending s) i) as [v|]; [|reflexivity]. destruct (e_live v); [|reflexivity].
       specialize (H (e_t v) eq_refl).
@@ -560,7 +603,7 @@ Section Generic.
     terminal p (cur p s t) = true -> cur p (fst (step p s o)) t = cur p s t.
   Proof.
     intros Hi Hd Ht. destruct (step_inv s o Hi Hd) as [_ Hok].
-    destruct (op_thread s o) as [t0|] eqn:Eo.
+    destruct (op_thread p s o) as [t0|] eqn:Eo.
     - destruct (N.eq_dec t t0) as [->|Hne].
       + unfold step_ok in Hok. rewrite Eo in Hok. destruct (step p s o) as [s' [r ann]]. cbn [fst].
         apply andb_true_iff in Hok. destruct Hok as [Hok H3]. apply andb_true_iff in Hok. destruct Hok as [_ H2].
@@ -604,17 +647,49 @@ Section Generic.
 End Generic.
 
 (* ---- statements that need no guard and no hypothesis on the tables ---- *)
+Lemma cur_set_other_gen p s t t' x : t' <> t -> cur p (set s t x) t' = cur p s t'.
+Proof. intros H. unfold cur, set; cbn. destruct (N.eqb_spec t t'); [congruence|reflexivity]. Qed.
+Lemma commit_other_gen p s t pers t' : t' <> t -> cur p (commit s t pers) t' = cur p s t'.
+Proof. intros H. destruct pers; [apply cur_set_other_gen; exact H|reflexivity]. Qed.
+Lemma process_other_gen p s t k m c skip ab tape t' :
+  t' <> t -> cur p (fst (fst (fst (process p s t k m c skip ab tape)))) t' = cur p s t'.
+Proof.
+  intros Ht. unfold process.
+  set (r1 := if skip then _ else _).
+  destruct (r_ok r1).
+  - cbn [fst]. destruct (r_halt r1); [unfold add_ev, cur; cbn [persisted]; fold (cur p (commit s t (r_pers r1)) t')|];
+      apply commit_other_gen; exact Ht.
+  - destruct (ab && p_abandons p); cbn [fst].
+    + rewrite commit_other_gen by exact Ht. apply commit_other_gen. exact Ht.
+    + apply commit_other_gen. exact Ht.
+Qed.
+
+Lemma msg_reject_preserves p s outbound m v3 flag t bt f tape :
+  fst (snd (fst (msg_step p s outbound m v3 flag t bt f tape))) = RReject ->
+  fst (fst (msg_step p s outbound m v3 flag t bt f tape)) = s /\ snd (snd (fst (msg_step p s outbound m v3 flag t bt f tape))) = [].
+Proof.
+  unfold msg_step. destruct (f_get f); [intros _; split; reflexivity|].
+  destruct (target p m v3 outbound) as [x|]; [|intros _; split; reflexivity].
+  destruct (negb (can p (cur p s t) x)); [intros _; split; reflexivity|].
+  destruct (negb outbound && is_action p m v3).
+  + destruct (f_tp f); [intros _; split; reflexivity|cbn; discriminate].
+  + destruct (process p s t _ m x false false tape) as [[[s1 ann] ok] fat]. cbn [fst snd].
+    destruct (ok || p_async p); [destruct (Nat.ltb _ _)|]; discriminate.
+Qed.
+
 Lemma reject_preserves_gen p s o :
   fst (snd (step p s o)) = RReject -> fst (step p s o) = s /\ snd (snd (step p s o)) = [].
 Proof.
-  unfold step, step_full. destruct o as [outbound m v3 flag t f tape|i opt f tape|i f tape|i tape].
-  - destruct (f_get f); [intros _; split; reflexivity|].
-    destruct (target p m v3 outbound) as [x|]; [|intros _; split; reflexivity].
-    destruct (negb (can p (cur p s t) x)); [intros _; split; reflexivity|].
-    destruct (negb outbound && is_action p m v3).
-    + destruct (f_tp f); [intros _; split; reflexivity|cbn; discriminate].
-    + destruct (process p s t _ m x false false tape) as [[[s1 ann] ok] fat]. cbn [fst snd].
-      destruct (ok || p_async p); [destruct (Nat.ltb _ _)|]; discriminate.
+  unfold step, step_full.
+  destruct o as [outbound m v3 flag t f tape|outbound m v3 flag wi wth wpth fresh f tape|i opt f tape|i f tape|i tape].
+  - apply msg_reject_preserves.
+  - destruct (wire_thread p m v3 outbound wi wth wpth fresh) as [t|]; [|intros _; split; reflexivity].
+    destruct (_ && N.eqb (p_tid_check p) 2); [intros _; split; reflexivity|].
+    match goal with |- context [msg_step p s outbound m v3 flag t ?b ?ff tape] =>
+      pose proof (msg_reject_preserves p s outbound m v3 flag t b ff tape) as L;
+      destruct (msg_step p s outbound m v3 flag t b ff tape) as [[s1 [r1 ann1]] fat] end.
+    cbn [fst snd] in *.
+    intros H. apply L. unfold relabel in H. destruct (_ && _) in H; [destruct r1; try discriminate|]; exact H.
   - destruct (nth_error (pending s) i) as [v|]; [|cbn; discriminate]. destruct (e_live v); [|cbn; discriminate].
     destruct (process p _ (e_t v) _ (e_msg v) (e_st v) _ true tape) as [[[s2 ann] ok] fat]. cbn. discriminate.
   - destruct (nth_error (pending s) i) as [v|]; [|cbn; discriminate]. destruct (e_live v); [|cbn; discriminate].
@@ -631,7 +706,7 @@ Lemma disallowed_rejected_gen p s outbound m v3 flag t f tape :
   | None => True
   end -> step p s (Msg outbound m v3 flag t f tape) = (s, (RReject, [])).
 Proof.
-  unfold step, step_full. destruct (f_get f); [reflexivity|].
+  unfold step, step_full, msg_step. destruct (f_get f); [reflexivity|].
   destruct (target p m v3 outbound) as [x|]; [|reflexivity]. intros ->. reflexivity.
 Qed.
 
@@ -639,9 +714,52 @@ Lemma accepted_allowed_gen p s outbound m v3 flag t f tape :
   fst (snd (step p s (Msg outbound m v3 flag t f tape))) <> RReject ->
   exists x, target p m v3 outbound = Some x /\ can p (cur p s t) x = true.
 Proof.
-  unfold step, step_full. destruct (f_get f); [cbn; congruence|].
+  unfold step, step_full, msg_step. destruct (f_get f); [cbn; congruence|].
   destruct (target p m v3 outbound) as [x|]; [|cbn; congruence].
   destruct (can p (cur p s t) x) eqn:Hc; [intros _; exists x; split; [reflexivity|exact Hc]|cbn; congruence].
+Qed.
+
+(* WIRE level: an accepted message was admitted by the state of the very thread it resolves to, and that is the only
+   thread whose persisted state can differ afterwards *)
+Lemma msg_accepted p s outbound m v3 flag t bt f tape :
+  fst (snd (fst (msg_step p s outbound m v3 flag t bt f tape))) <> RReject ->
+  exists x, target p m v3 outbound = Some x /\ can p (cur p s t) x = true.
+Proof.
+  unfold msg_step. destruct (f_get f); [cbn; congruence|].
+  destruct (target p m v3 outbound) as [x|]; [|cbn; congruence].
+  destruct (can p (cur p s t) x) eqn:Hc; [intros _; exists x; split; [reflexivity|exact Hc]|cbn; congruence].
+Qed.
+
+Lemma msg_step_other_gen p s outbound m v3 flag t bt f tape t' :
+  t' <> t -> cur p (fst (fst (msg_step p s outbound m v3 flag t bt f tape))) t' = cur p s t'.
+Proof.
+  intros H. unfold msg_step. destruct (f_get f); [reflexivity|].
+  destruct (target p m v3 outbound) as [x|]; [|reflexivity].
+  destruct (negb (can p (cur p s t) x)); [reflexivity|].
+  destruct (negb outbound && is_action p m v3); [destruct (f_tp f); reflexivity|].
+  match goal with |- context [process p s t ?k m x false false tape] =>
+    pose proof (process_other_gen p s t k m x false false tape t' H) as L;
+    destruct (process p s t k m x false false tape) as [[[s1 ann] ok] fat] end.
+  cbn [fst] in *. exact L.
+Qed.
+
+Lemma wire_accepted_gen p s outbound m v3 flag wi wth wpth fresh f tape :
+  fst (snd (step p s (Wire outbound m v3 flag wi wth wpth fresh f tape))) <> RReject ->
+  exists t x, wire_thread p m v3 outbound wi wth wpth fresh = Some t /\ target p m v3 outbound = Some x /\
+              can p (cur p s t) x = true /\
+              forall t', t' <> t -> cur p (fst (step p s (Wire outbound m v3 flag wi wth wpth fresh f tape))) t' = cur p s t'.
+Proof.
+  intros H. unfold step, step_full in *.
+  destruct (wire_thread p m v3 outbound wi wth wpth fresh) as [t|] eqn:EW; [|cbn in H; congruence].
+  destruct (_ && N.eqb (p_tid_check p) 2); [cbn in H; congruence|].
+  match type of H with context [msg_step p s outbound m v3 flag t ?b ?ff tape] =>
+    pose proof (msg_accepted p s outbound m v3 flag t b ff tape) as A;
+    pose proof (msg_step_other_gen p s outbound m v3 flag t b ff tape) as O;
+    destruct (msg_step p s outbound m v3 flag t b ff tape) as [[s1 [r1 ann1]] fat] end.
+  cbn [fst snd] in *.
+  destruct A as [x [Hx Hc]].
+  { intro E. apply H. rewrite E. unfold relabel. destruct (_ && _); reflexivity. }
+  exists t, x. repeat split; assumption.
 Qed.
 
 (* a late / duplicated API decision is refused unless the thread is still in the state the event was raised in *)
